@@ -1,6 +1,6 @@
 (* Properties/C04.v — Wire decoding is total, exactly framed and memory-bounded.
    Only statements; every proof is `exact <lemma>` from Proof/. *)
-From Storrent Require Import Base.Bytes Base.Bencode Model.Wire Proof.Bencode Proof.Wire.
+From Storrent Require Import Base.Bytes Base.Bencode Model.Wire Model.DepthLimiter Proof.Bencode Proof.Wire Proof.DepthLimiter.
 Open Scope N_scope.
 
 (* never "no message and no error" *)
@@ -70,3 +70,29 @@ Theorem c04_depth_limited : forall bs v r k,
   bdecode_lim bs = BOk v r k -> bdecode bs = BOk v r k /\ vdepth v <= max_bencode_depth.
 Proof. exact bdecode_lim_ok. Qed.
 Print Assumptions c04_depth_limited.
+
+(* The reader that enforces the bound (protocol.LimitBencodeDepth, Model/DepthLimiter.v: a byte-by-byte
+   state machine, compared with the Go code on every run) against the decoder it protects.
+   Safety, for EVERY input — well-formed, malformed, truncated: if the limiter lets the input
+   through, the decoder behaves exactly as a decoder that refuses to open a container more than 64
+   levels down; so the decoder's recursion is bounded on whatever prefix it is allowed to read.
+   (An earlier version of the limiter stopped following the structure at a string length with a
+   sign, which strconv.ParseInt accepts: the proof of this theorem failed there, and so did the
+   real code: 'd+1:a' followed by a megabyte of 'l' still crashed the process; fix cebaacc.) *)
+Theorem c04_limiter_safe : forall f bs,
+  lim_passes bs = true -> bparse_b f max_bencode_depth bs = bparse f bs.
+Proof. exact limiter_safe. Qed.
+Print Assumptions c04_limiter_safe.
+
+(* Exactness: a value the decoder accepts is refused by the limiter exactly when it nests deeper than
+   64 levels — nothing shallower is ever refused — and what follows an accepted value passes. *)
+Theorem c04_limiter_exact : forall bs v rest k,
+  bdecode bs = BOk v rest k -> lim_passes bs = negb (max_bencode_depth <? vdepth v).
+Proof. exact limiter_exact. Qed.
+Print Assumptions c04_limiter_exact.
+
+(* hence reading through the limiter and decoding is [bdecode_lim], which the models use *)
+Theorem c04_limited_decode : forall bs v rest k, bdecode bs = BOk v rest k ->
+  bdecode_lim bs = if lim_passes bs then BOk v rest k else BErr BSyntax k.
+Proof. exact limited_decode. Qed.
+Print Assumptions c04_limited_decode.
